@@ -196,10 +196,7 @@ func toPropertyDescriptor(rt *runtime, value Value) property {
 
 func (rt *runtime) fromPropertyDescriptor(descriptor property) *object {
 	obj := rt.newObject()
-	if descriptor.isDataDescriptor() {
-		obj.defineProperty("value", descriptor.value.(Value), 0o111, false)
-		obj.defineProperty("writable", boolValue(descriptor.writable()), 0o111, false)
-	} else if getSet, isAccessor := descriptor.value.(propertyGetSet); isAccessor {
+	if getSet, isAccessor := descriptor.value.(propertyGetSet); isAccessor {
 		// Also when both the getter and the setter are undefined (8.10.4 step 4).
 		get := Value{}
 		if getSet[0] != nil {
@@ -211,6 +208,11 @@ func (rt *runtime) fromPropertyDescriptor(descriptor property) *object {
 		}
 		obj.defineProperty("get", get, 0o111, false)
 		obj.defineProperty("set", set, 0o111, false)
+	} else if descriptor.isDataDescriptor() {
+		// An accessor is recognised by its value above, whatever its mode bits say
+		// (the built-in caller accessor of functions is created with mode 0).
+		obj.defineProperty("value", descriptor.value.(Value), 0o111, false)
+		obj.defineProperty("writable", boolValue(descriptor.writable()), 0o111, false)
 	}
 	obj.defineProperty("enumerable", boolValue(descriptor.enumerable()), 0o111, false)
 	obj.defineProperty("configurable", boolValue(descriptor.configurable()), 0o111, false)
